@@ -26,7 +26,7 @@ LEVEL = 'other'
 UNITS = ['src/transform/SmartRotation3D.cpp', 'src/geometry/Pose3D.cpp', 'src/geometry/Pose2D.cpp', 'src/geometry/Position2D.cpp', 'src/geometry/Twist3D.cpp', 'src/geometry/PoseAndTwist3D.cpp',
          'src/geometry/Ellipse.cpp', 'verif:inst_geometry.cpp']
 ENGINES = 'E-SIB + E-ALG + E-INT over romea-facts'
-TECHNIQUE = 'scale law of the ellipse constructor composed with what each caller passes, conditional paths whose error moves with a quantity their conditions do not mention, vector-block stores, exact ellipse shortcuts judged by value on witness covariances, per-component guards unrolled with corner witnesses, floating type of the sigma scale, multi-path conversions judged per path with path-conditioned witnesses, corner-block copies read entry by entry, rank-threshold fact of the ellipse decomposition, sweep of every function read (and its in-repo callees) for frozen function-local statics, single precision inside double computations, lossy copy constructors, presence- or argument-keyed member caches, reference members bound to constructor arguments, loop accumulators that are members, members derived in the constructor and not refreshed by setters, results returned by reference to a member buffer, members filled from an argument under a condition that ignores it, hidden non-virtual base members, self-bound reference members, reductions that accumulate in float; builder rules of C10 on the pitch domain of this property, tolerance shortcut in the ellipse constructor; final state of nested output structs (copy-out of by-reference parameters), witness transforms inside unclassified shortcut conditions; matrix-valued formula extraction: selection maps compared entry by entry on symbolic matrices, component routing by symbolic final states, SE(3) action shape, structural ellipse index agreement and square-root domain'
+TECHNIQUE = 'matrix handed to the Ellipse constructor read with a symbolic covariance, output components left unwritten on a path whose condition ignores them, by-value overloads that ignore their argument, scale law of the ellipse constructor composed with what each caller passes, conditional paths whose error moves with a quantity their conditions do not mention, vector-block stores, exact ellipse shortcuts judged by value on witness covariances, per-component guards unrolled with corner witnesses, floating type of the sigma scale, multi-path conversions judged per path with path-conditioned witnesses, corner-block copies read entry by entry, rank-threshold fact of the ellipse decomposition, sweep of every function read (and its in-repo callees) for frozen function-local statics, single precision inside double computations, lossy copy constructors, presence- or argument-keyed member caches, reference members bound to constructor arguments, loop accumulators that are members, members derived in the constructor and not refreshed by setters, results returned by reference to a member buffer, members filled from an argument under a condition that ignores it, hidden non-virtual base members, self-bound reference members, reductions that accumulate in float; builder rules of C10 on the pitch domain of this property, tolerance shortcut in the ellipse constructor; final state of nested output structs (copy-out of by-reference parameters), witness transforms inside unclassified shortcut conditions; matrix-valued formula extraction: selection maps compared entry by entry on symbolic matrices, component routing by symbolic final states, SE(3) action shape, structural ellipse index agreement and square-root domain'
 EXPLANATION = ('The covariance selection/embedding maps are read on fully symbolic matrices and compared entry by entry with the (0,1,5) selection; the 3D->2D reductions are read as final '
                'states of their output structs; the pose transform is read per path; the ellipse construction is matched structurally.')
 ASSUMPTIONS = ['JacobiSVD singular values are non-negative and in decreasing order, matrixU columns are the principal directions',
